@@ -183,8 +183,17 @@ impl Generator {
             Get | BinGet | LongBinGet => !self.state.memo.is_empty(),
 
             // PUT operations - need something to memoize (and not MARK)
-            Put | BinPut | LongBinPut | Memoize => {
+            Put | LongBinPut | Memoize => {
                 self.state.stack.len() >= 1
+                    && self
+                        .peek()
+                        .is_some_and(|obj| !matches!(*obj.borrow(), StackObject::Mark))
+            }
+            // BINPUT can only name indices 0..=255: once the memo holds 256 entries the
+            // next fresh index no longer fits in one byte
+            BinPut => {
+                self.state.stack.len() >= 1
+                    && self.state.memo.len() < 256
                     && self
                         .peek()
                         .is_some_and(|obj| !matches!(*obj.borrow(), StackObject::Mark))
